@@ -4,13 +4,16 @@
   split_path_info            -> gen_split_path_info (p : text) : list text
   decode_path_info           -> gen_decode_path_info (p : text) : result text
   traversal_path_info        -> gen_traversal_path_info (p : text) : result (list text)
-  ResourceTreeTraverser.__call__, the statements from `root = self.root` to the end (the `vpath == '/'` test,
-  the walk loop, the four returned dictionaries)
+  ResourceTreeTraverser.__call__ is translated in two pieces that are composed at the statement `root = self.root`:
+    the statements before it (match dictionary / PATH_INFO / virtual-root header)
+                             -> gen_call_preamble (q : request) : result (vpath, path, subpath, vroot_tuple, vroot_idx)
+    the statements from it on (the `vpath == '/'` test, the walk loop, the four returned dictionaries)
                              -> gen_call_tail (vpath path : text) (subpath vroot_tuple : list text)
                                               (vroot_idx : Z) (root : rnode) : tdict
-  (the statements of __call__ BEFORE `root = self.root` -- match dictionary / PATH_INFO / virtual-root header
-  plumbing, str-or-tuple values, `or '/'` truthiness -- are too irregular for this translator: they stay
-  hand-modelled and shape-pinned, see c02facts.py)
+    gen_call root q = gen_call_preamble q >>= gen_call_tail .. root     (the five variables are exactly those the
+                             preamble assigns on every path and the tail reads; any other name the tail reads is a Problem)
+  find_root                  -> gen_find_root_c02 (tree : res) (resource : rnode) : rnode
+  traversal_path             -> gen_traversal_path (p : text) : result (list text)      (for a str argument)
 
 Fail-closed: a statement outside the SUBSET, an expression outside the PRIMITIVE TABLE, a typing surprise, a
 changed module-level binding the table relies on -> Problem; the caller records it as a broken tie and emits the
@@ -40,6 +43,17 @@ file still type-checks.  (Adapted from harness/c11/translate.py; the control-flo
                          match CALL with Ok x => <rest> | Exc UnicodeDecodeError | Exc URLDecodeError => Exc URLDecodeError
                                        | Exc UnicodeEncodeError => Exc UnicodeEncodeError | Unsupported => Unsupported end
                          (URLDecodeError subclasses UnicodeDecodeError: both are caught)
+  try: v = E[request.path_info] / except KeyError: H / except UnicodeDecodeError as e: raise URLDecodeError(e.<attr>, ..) ; rest
+                         match q_path_info q with None => <H ; rest>
+                         | Some raw => match webob_path_info raw with Ok pi => <rest with v := E[pi]> | (as above) end end
+  if m is not None: A else: B      (m = request.matchdict)   match q_matchdict q with Some md => <A, m := md> | None => <B> end
+  if is_nonstr_iter(v): A else: B  (v a match-dictionary value)  match v with MTuple l => <A, v := l : tuple>
+                                                                              | MStr s => <B, v := s : str> end
+  if self.VH_ROOT_KEY in environ: A else: B   match q_vroot q with Some raw => <A, environ[self.VH_ROOT_KEY] := raw> | None => <B> end
+                         (each also negated / with `is None` / `not in`; only as the WHOLE test of an if)
+  a or b   (value position)       if <a is falsy> then b else a      (str: == '' ; match-dictionary value: mval_falsy)
+  end of the preamble             Ok (vpath, path, subpath, vroot_tuple, vroot_idx) -- each must be bound, with its type,
+                                  on every path that reaches `root = self.root`
 
 === PRIMITIVE TABLE (trusted: each line is a claim about Python / Pyramid semantics) =====================
   str values                 text = list of code points; a str literal is its code points
@@ -52,6 +66,12 @@ file still type-checks.  (Adapted from harness/c11/translate.py; the control-flo
   l.append(x)                l := snoc l x              (l a list created by [] in this function: no aliasing)
   del l[-1]                  l := drop_last l   ONLY on a path on which `l` was tested true (else IndexError)
   x.encode('latin-1')        latin1_encode_r x : result bytes   (UnicodeEncodeError above U+00FF)
+  x.encode('ascii')          ascii_encode_r x : result bytes    (UnicodeEncodeError above U+007F)
+  isinstance(x, str)         true for a str, false for bytes / a tuple (decided by the translator's typing: the argument
+                             of traversal_path is a str -- bytes arguments are outside the model)
+  unquote_bytes_to_wsgi(b)   unquote_to_wsgi b = Lib/Percent.unquote (urllib unquote_to_bytes, then latin-1: code point =
+                             byte); the function itself stays shape-pinned
+  traversal_path_info(x)     gen_traversal_path_info x
   y.decode('utf-8')          rbind y utf8_decode_r : result str (strict CPython UTF-8 = Lib/Utf8.decode)
   @lru_cache(n)              erased: memoisation is transparent (Proofs/C02_memo.v); n is a regenerated fact
   split_path_info(x)         gen_split_path_info x        decode_path_info(x)   gen_decode_path_info x
@@ -63,18 +83,30 @@ file still type-checks.  (Adapted from harness/c11/translate.py; the control-flo
   {'context': c, 'view_name': v, 'subpath': s, 'traversed': t, 'virtual_root': r, 'virtual_root_path': p, 'root': o}
                              mkT (fst c) v s t (fst r) p (fst o)    (exactly these seven keys; resources are observed
                              through their position)
-  variables of __call__ bound by the pinned preamble: vpath, path (str), subpath, vroot_tuple (tuples of str),
-                             vroot_idx (int)
+  variables of __call__ handed from the preamble to the tail: vpath, path (str), subpath, vroot_tuple (tuples of
+                             str), vroot_idx (int)
+  request.environ / request.matchdict   the request q / q_matchdict q : option matchdict (None = no route matched)
+  request.path_info          webob: environ['PATH_INFO'] (absent = KeyError) .encode('latin-1').decode('utf-8')
+                             = q_path_info q / webob_path_info (Model/C02_base.v); only inside the try shape above
+  m.get('traverse', d) / m.get('subpath', d)   md_get md_traverse m d / md_get md_subpath m d : a str or a tuple of str
+                             (ASSUMPTION of the property: match dictionary values are str or tuples of str)
+  is_nonstr_iter(v)          v is the tuple alternative (pyramid.util.is_nonstr_iter: shape-pinned)
+  self.VH_ROOT_KEY in environ / environ[self.VH_ROOT_KEY]    q_vroot q (the class attribute is tied to
+                             interfaces.VH_ROOT_KEY by the class-body fact of c02facts.py)
+  'c'.join(t)                join "c" t (Lib/Text)
+  lineage(x)                 lineage_of tree x : x, its parent, .., the root (pyramid.location.lineage: shape-pinned)
+  x.__parent__ is None       parent_is_none x   (position = []; the root's __parent__ is None -- glossary "location-aware")
+  for x in lineage(..)       the same loop rule, elements of type rnode
 """
 import ast
 import json
 import os
 
 # every source function whose control flow this translator regenerates on every run (tools/coverage_map.py reads it);
-# of ResourceTreeTraverser.__call__ only the part from `root = self.root` on is translated -- its preamble is covered by
-# the masked pin harness/c02/skeleton.json ("ResourceTreeTraverser.__call__"), see c02facts.py
+# ResourceTreeTraverser.__call__ is translated as a whole (preamble ; tail)
 TRANSLATED = ['pyramid/traversal.py:split_path_info', 'pyramid/traversal.py:decode_path_info',
-              'pyramid/traversal.py:traversal_path_info', 'pyramid/traversal.py:ResourceTreeTraverser.__call__']
+              'pyramid/traversal.py:traversal_path_info', 'pyramid/traversal.py:ResourceTreeTraverser.__call__',
+              'pyramid/traversal.py:find_root', 'pyramid/traversal.py:traversal_path']
 
 HERE = os.path.dirname(os.path.abspath(__file__))
 FALLBACK = os.path.join(HERE, 'gen_fallback.json')
@@ -82,6 +114,10 @@ FALLBACK = os.path.join(HERE, 'gen_fallback.json')
 TEXT, SEGS, SEGSOWN, INT, NODE, BOOL, TDICT, BYTES, ERASED, SELF, GETITEM, EXCV = (
     'str', 'tuple', 'list(own)', 'int', 'resource', 'bool', 'dict', 'bytes', 'erased', 'self', 'bound __getitem__',
     'caught exception')
+# the preamble of __call__ / find_root
+REQ, ENVIRON, OPTMD, MD, MVAL, PRE, NODES = ('request', 'request.environ', 'matchdict or None', 'matchdict',
+                                             'str or tuple (match dictionary value)', 'variables of the preamble',
+                                             'lineage (resources)')
 
 
 def RES(t):
@@ -92,7 +128,8 @@ def coqty(t):
     if isinstance(t, tuple) and t[0] == 'result':
         return 'result (%s)' % coqty(t[1])
     return {TEXT: 'text', SEGS: 'list text', SEGSOWN: 'list text', INT: 'Z', NODE: 'rnode', BOOL: 'bool',
-            TDICT: 'tdict', BYTES: 'list N'}[t]
+            TDICT: 'tdict', BYTES: 'list N', MVAL: 'mval', NODES: 'list rnode',
+            PRE: 'text * text * list text * list text * Z'}[t]
 
 
 def same(a, b):
@@ -156,6 +193,24 @@ class MOpt(Term):
         return ('MOpt', self.scrut.key(), self.none.key(), self.var, self.some.key())
 
 
+class MMval(Term):
+    """match on a match-dictionary value: a str or a tuple of str (is_nonstr_iter)"""
+
+    def __init__(self, scrut, svar, sbr, lvar, lbr):
+        self.scrut, self.svar, self.sbr, self.lvar, self.lbr = scrut, svar, sbr, lvar, lbr
+
+    def key(self):
+        return ('MMval', self.scrut.key(), self.svar, self.sbr.key(), self.lvar, self.lbr.key())
+
+
+class Tup(Term):
+    def __init__(self, args):
+        self.args = list(args)
+
+    def key(self):
+        return ('Tup',) + tuple(a.key() for a in self.args)
+
+
 class MRes(Term):
     """match on a result; caught = None (propagate every exception) or the handler term for the caught classes"""
 
@@ -171,6 +226,7 @@ class Loop:
         self.n = n
         self.f, self.l, self.t = 'loop%d' % n, 'l%d' % n, 't%d' % n
         self.ret_ty = ret_ty
+        self.elem = TEXT
         self.x = None
         self.carried = []
 
@@ -263,6 +319,8 @@ def simplify(t, known):
         return MOpt(t.scrut, simplify(t.none, known), t.var, simplify(t.some, known))
     if isinstance(t, MRes):
         return MRes(t.scrut, t.var, simplify(t.ok, known), simplify(t.caught, known) if t.caught else None)
+    if isinstance(t, MMval):
+        return MMval(t.scrut, t.svar, simplify(t.sbr, known), t.lvar, simplify(t.lbr, known))
     if isinstance(t, Fix):
         return Fix(t.loop, simplify(t.nil, known), simplify(t.cons, known), t.it, t.init)
     return t
@@ -285,6 +343,12 @@ def render(t, ind):
     if isinstance(t, MOpt):
         return 'match %s with\n%s| None =>%s\n%s| Some %s =>%s\n%send' % (
             render(t.scrut, ind), sp, render_in(t.none, ind + 4), sp, t.var, render_in(t.some, ind + 4), sp)
+    if isinstance(t, MMval):
+        return 'match %s with\n%s| MStr %s =>%s\n%s| MTuple %s =>%s\n%send' % (
+            paren(t.scrut, ind) if isinstance(t.scrut, (If, MOpt, MRes, MMval, Fix)) else render(t.scrut, ind), sp, t.svar, render_in(t.sbr, ind + 4), sp, t.lvar, render_in(t.lbr, ind + 4), sp)
+    if isinstance(t, Tup):
+        return '(' + ', '.join(paren(a, ind) if isinstance(a, (If, MOpt, MRes, MMval, Fix)) else render(a, ind)
+                               for a in t.args) + ')'
     if isinstance(t, MRes):
         if t.caught is None:
             mid = '%s| Exc e_ => Exc e_\n' % sp
@@ -296,7 +360,7 @@ def render(t, ind):
             render(t.scrut, ind), sp, t.var, render_in(t.ok, ind + 4), mid, sp, sp)
     if isinstance(t, Fix):
         lp = t.loop
-        bind = '(%s : list text)' % lp.l
+        bind = '(%s : list %s)' % (lp.l, coqty(lp.elem))
         for _, b, ty in lp.carried:
             bind += ' (%s : %s)' % (b, coqty(ty))
         args = [paren(t.it, ind)] + [paren(a, ind) for a in t.init]
@@ -308,13 +372,15 @@ def render(t, ind):
 
 def render_in(t, ind):
     s = render(t, ind)
-    if isinstance(t, (If, MOpt, MRes, Fix)):
+    if isinstance(t, (If, MOpt, MRes, MMval, Fix)):
         return '\n' + ' ' * ind + s
     return ' ' + s
 
 
 def paren(t, ind):
     s = render(t, ind)
+    if isinstance(t, Tup):
+        return s
     return s if isinstance(t, (V, K)) and ' ' not in s and not s.startswith('-') else '(' + s + ')'
 
 
@@ -343,8 +409,13 @@ DICT_TY = {'context': NODE, 'virtual_root': NODE, 'root': NODE, 'view_name': TEX
            'traversed': SEGS, 'virtual_root_path': SEGS}
 
 MODULE_FUNCS = {'split_path_info': ('gen_split_path_info', SEGS), 'decode_path_info': ('gen_decode_path_info', RES(TEXT))}
-BUILTINS = ('tuple', 'len', 'KeyError', 'AttributeError', 'UnicodeDecodeError')
-RESERVED = set(MODULE_FUNCS) | set(BUILTINS) | {'URLDecodeError'}
+BUILTINS = ('tuple', 'len', 'KeyError', 'AttributeError', 'UnicodeDecodeError', 'isinstance', 'str')
+RESERVED = set(MODULE_FUNCS) | set(BUILTINS) | {'URLDecodeError', 'is_nonstr_iter', 'lineage', 'unquote_bytes_to_wsgi',
+                                                 'traversal_path_info'}
+SPLIT_AT = 'root = self.root'
+# the variables that are live across the split of __call__ (assigned by the preamble, read by the tail)
+PRE_OUT = [('vpath', TEXT), ('path', TEXT), ('subpath', SEGS), ('vroot_tuple', SEGS), ('vroot_idx', INT)]
+MD_KEYS = {'traverse': 'md_traverse', 'subpath': 'md_subpath'}
 
 FUNCS = [
     dict(qual='split_path_info', gen='gen_split_path_info', ret=SEGS, params=[(V('p'), TEXT)],
@@ -353,7 +424,13 @@ FUNCS = [
          sig='(p : text) : result text', default='Unsupported'),
     dict(qual='traversal_path_info', gen='gen_traversal_path_info', ret=RES(SEGS), params=[(V('p'), TEXT)],
          sig='(p : text) : result (list text)', default='Unsupported'),
-    dict(qual='ResourceTreeTraverser.__call__', gen='gen_call_tail', ret=TDICT, tail_from='root = self.root',
+    dict(qual='ResourceTreeTraverser.__call__', gen='gen_call_preamble', ret=RES(PRE), head_until=SPLIT_AT,
+         sig='(q : request) : result (text * text * list text * list text * Z)', default='Unsupported'),
+    dict(qual='traversal_path', gen='gen_traversal_path', ret=RES(SEGS), params=[(V('p'), TEXT)],
+         sig='(p : text) : result (list text)', default='Unsupported'),
+    dict(qual='find_root', gen='gen_find_root_c02', ret=NODE, params=[(V('resource'), NODE)],
+         sig='(tree : res) (resource : rnode) : rnode', default='resource'),
+    dict(qual='ResourceTreeTraverser.__call__', gen='gen_call_tail', ret=TDICT, tail_from=SPLIT_AT,
          bound={'self': (None, SELF), 'request': (None, ERASED), 'environ': (None, ERASED), 'matchdict': (None, ERASED),
                 'vroot_path': (None, ERASED),
                 'vpath': (V('vpath'), TEXT), 'path': (V('path'), TEXT), 'subpath': (V('subpath'), SEGS),
@@ -400,7 +477,26 @@ class FnTranslator:
                 raise Problem('construct outside the subset: %s' % type(n).__name__)
         env = {}
         body = list(fn.body)
-        if 'tail_from' in spec:
+        k_end = None
+        if 'head_until' in spec:
+            if [x.arg for x in a.args] != ['self', 'request']:
+                raise Problem('expected parameters (self, request)')
+            idx = [i for i, st in enumerate(body) if u(st) == spec['head_until']]
+            if len(idx) != 1:
+                raise Problem('statement `%s` not found exactly once at the top level' % spec['head_until'])
+            body = body[:idx[0]]
+            env = {'self': (None, SELF), 'request': (V('q'), REQ)}
+
+            def k_end(env2, facts):
+                # sequential composition at the split: the values of the variables that are live across it
+                args = []
+                for nm, ty in PRE_OUT:
+                    if nm not in env2 or env2[nm][0] is None or not same(env2[nm][1], ty):
+                        raise Problem('at `%s` the variable %s is %s, expected a %s on every path' % (
+                            spec['head_until'], nm, env2[nm][1] if nm in env2 else 'unbound', ty))
+                    args.append(env2[nm][0])
+                return A('Ok', [Tup(args)])
+        elif 'tail_from' in spec:
             if [x.arg for x in a.args] != ['self', 'request']:
                 raise Problem('expected parameters (self, request)')
             idx = [i for i, st in enumerate(body) if u(st) == spec['tail_from']]
@@ -420,8 +516,9 @@ class FnTranslator:
             for arg, (obj, ty) in zip(a.args, spec['params']):
                 env[arg.arg] = (obj, ty)
 
-        def k_end(env2, facts):
-            raise Problem('control can reach the end of the function without a return')
+        if k_end is None:
+            def k_end(env2, facts):
+                raise Problem('control can reach the end of the function without a return')
         return simplify(self.block(body, env, {}, k_end, None), {})
 
     # ------------------------------------------------------------ statements
@@ -464,7 +561,12 @@ class FnTranslator:
         if isinstance(s, ast.Expr):
             return k_next(self.method_stmt(s, env), facts)
         if isinstance(s, ast.If):
+            bt = self.binder_test(s, env, facts, k_next, jumps)
+            if bt is not None:
+                return bt
             c = self.cond(s.test, env)
+            if c[0] == 'const':                         # decided by typing (isinstance): the dead branch is not translated
+                return self.block(list(s.body if c[1] else s.orelse), env, facts, k_next, jumps)
             ft = implied(c, True, dict(facts))
             fe = implied(c, False, dict(facts))
             t = self.block(list(s.body), env, ft, k_next, jumps)
@@ -475,6 +577,73 @@ class FnTranslator:
         if isinstance(s, ast.For):
             return self.for_loop(s, env, facts, k_next)
         raise Problem('statement outside the subset: %s' % u(s).split('\n')[0])
+
+    # tests that BIND: `m is [not] None` on request.matchdict, `[not] is_nonstr_iter(v)` on a match-dictionary value,
+    # `self.VH_ROOT_KEY [not] in environ`
+    def binder_test(self, s, env, facts, k_next, jumps):
+        t, neg = s.test, False
+        if isinstance(t, ast.UnaryOp) and isinstance(t.op, ast.Not):
+            t, neg = t.operand, True
+
+        def branches(env_yes, env_no):
+            yes_body, no_body = (s.orelse, s.body) if neg else (s.body, s.orelse)
+            return (self.block(list(yes_body), env_yes, facts, k_next, jumps),
+                    self.block(list(no_body), env_no, facts, k_next, jumps))
+        if isinstance(t, ast.Compare) and len(t.ops) == 1 and isinstance(t.ops[0], (ast.Is, ast.IsNot)) \
+                and isinstance(t.comparators[0], ast.Constant) and t.comparators[0].value is None \
+                and isinstance(t.left, ast.Name) and t.left.id in env and env[t.left.id][1] == OPTMD:
+            if isinstance(t.ops[0], ast.Is):
+                neg = not neg
+            b = self.fresh('md')
+            some, none = branches(_with(env, t.left.id, (V(b), MD)), env)
+            return MOpt(env[t.left.id][0], none, b, some)
+        if isinstance(t, ast.Call) and isinstance(t.func, ast.Name) and t.func.id == 'is_nonstr_iter' \
+                and t.func.id not in env and len(t.args) == 1 and not t.keywords and isinstance(t.args[0], ast.Name) \
+                and t.args[0].id in env and env[t.args[0].id][1] == MVAL:
+            self.used.add('is_nonstr_iter')
+            nm = t.args[0].id
+            bs, bl = self.fresh(nm), self.fresh(nm)
+            ltree, stree = branches(_with(env, nm, (V(bl), SEGS)), _with(env, nm, (V(bs), TEXT)))
+            return MMval(env[nm][0], bs, stree, bl, ltree)
+        if isinstance(t, ast.Compare) and len(t.ops) == 1 and isinstance(t.ops[0], (ast.In, ast.NotIn)) \
+                and self.is_vh_key(t.left, env) and isinstance(t.comparators[0], ast.Name) \
+                and t.comparators[0].id in env and env[t.comparators[0].id][1] == ENVIRON:
+            if isinstance(t.ops[0], ast.NotIn):
+                neg = not neg
+            b = self.fresh('vh_raw')
+            some, none = branches(_with(env, '$vh_raw', (V(b), TEXT)), env)
+            self.used.add('self.VH_ROOT_KEY')
+            return MOpt(A('q_vroot', [env[t.comparators[0].id][0]]), none, b, some)
+        return None
+
+    @staticmethod
+    def is_vh_key(n, env):
+        return isinstance(n, ast.Attribute) and n.attr == 'VH_ROOT_KEY' and isinstance(n.value, ast.Name) \
+            and n.value.id in env and env[n.value.id][1] == SELF
+
+    def value_expr(self, n, env):
+        """an expression in VALUE position: additionally `a or b` (the first operand unless it is falsy)"""
+        if isinstance(n, ast.BoolOp) and isinstance(n.op, ast.Or) and len(n.values) == 2:
+            ao, at = self.value_expr(n.values[0], env)
+            bo, bt = self.value_expr(n.values[1], env)
+            if ao is None or bo is None:
+                raise Problem('`or` on an unmodelled value: %s' % u(n))
+            if at == MVAL and bt in (MVAL, TEXT, SEGS):
+                return If(A('mval_falsy', [ao]), self.as_mval(bo, bt), ao), MVAL
+            if at == TEXT and bt == TEXT:
+                return If(A('text_eqb', [ao, K('[]')]), bo, ao), TEXT
+            raise Problem('`or` between a %s and a %s is outside the table: %s' % (at, bt, u(n)))
+        return self.expr(n, env)
+
+    @staticmethod
+    def as_mval(obj, ty):
+        if ty == MVAL:
+            return obj
+        if ty == TEXT:
+            return A('MStr', [obj])
+        if ty in (SEGS,):
+            return A('MTuple', [obj])
+        raise Problem('a %s as a match-dictionary value' % ty)
 
     def ret(self, value, env, s):
         obj, ty = self.expr(value, env)
@@ -493,7 +662,7 @@ class FnTranslator:
             if not isinstance(tg, ast.Name):
                 raise Problem('assignment target outside the subset: %s' % u(s))
             names.append(tg.id)
-        obj, ty = self.expr(s.value, env)
+        obj, ty = self.value_expr(s.value, env)
         if ty in (GETITEM, EXCV) or (ty == SELF):
             raise Problem('assignment of a %s outside the try shapes: %s' % (ty, u(s)))
         if ty == SEGSOWN and not (isinstance(s.value, ast.List) and not s.value.elts and len(names) == 1):
@@ -541,7 +710,50 @@ class FnTranslator:
             raise Problem('%s: appending a %s' % (u(s), aty))
         return _with(env, name, (A('snoc', [env[name][0], aobj]), SEGSOWN))
 
+    def check_reraise(self, h):
+        r = h.body[0] if len(h.body) == 1 else None
+        ok = h.name is not None and isinstance(r, ast.Raise) and r.cause is None and isinstance(r.exc, ast.Call) \
+            and isinstance(r.exc.func, ast.Name) and r.exc.func.id == 'URLDecodeError' and not r.exc.keywords \
+            and all(isinstance(x, ast.Attribute) and isinstance(x.value, ast.Name) and x.value.id == h.name
+                    for x in r.exc.args)
+        if not ok:
+            raise Problem('handler outside the table (expected raise URLDecodeError(e.<attr>, ..)): %s'
+                          % u(h).split('\n')[0])
+        self.used.update(('UnicodeDecodeError', 'URLDecodeError'))
+
+    def try_path_info(self, s, env, facts, k_next, jumps):
+        """try: v = <expr over request.path_info> / except KeyError: H / except UnicodeDecodeError as e: raise URLDecodeError(..)"""
+        v = s.body[0].targets[0].id
+        val = s.body[0].value
+        hk = [h for h in s.handlers if h.type.id == 'KeyError']
+        hu = [h for h in s.handlers if h.type.id == 'UnicodeDecodeError']
+        if len(hk) != 1 or len(hu) != 1 or hk[0].name is not None:
+            raise Problem('try statement outside the table: %s' % u(s).split('\n')[0])
+        self.check_reraise(hu[0])
+        reads = [x for x in ast.walk(val) if isinstance(x, ast.Attribute) and x.attr == 'path_info'
+                 and isinstance(x.value, ast.Name) and x.value.id in env and env[x.value.id][1] == REQ]
+        if len(reads) != 1:
+            raise Problem('try/except KeyError/UnicodeDecodeError around something that does not read request.path_info '
+                          'exactly once: %s' % u(s.body[0]))
+        if not isinstance(self.spec['ret'], tuple):
+            raise Problem('try/except UnicodeDecodeError in a function that is not modelled as raising')
+        q = env[reads[0].value.id][0]
+        raw, b = self.fresh('raw'), self.fresh('pi')
+        obj, ty = self.value_expr(val, _with(env, '$path_info', (V(b), TEXT)))
+        if ty != TEXT or obj is None:
+            raise Problem('%s: the value is a %s' % (u(s.body[0]), ty))
+        self.used.add('KeyError')
+        okt = k_next(_with(env, v, (obj, ty)), facts)
+        none = self.block(list(hk[0].body), env, facts, k_next, jumps)
+        return MOpt(A('q_path_info', [q]), none, raw,
+                    MRes(A('webob_path_info', [V(raw)]), b, okt, A('Exc', [K('URLDecodeError')])))
+
     def try_stmt(self, s, env, facts, k_next, jumps):
+        if (len(s.body) == 1 and not s.orelse and not s.finalbody and len(s.handlers) == 2
+                and isinstance(s.body[0], ast.Assign) and len(s.body[0].targets) == 1
+                and isinstance(s.body[0].targets[0], ast.Name)
+                and all(isinstance(h.type, ast.Name) for h in s.handlers)):
+            return self.try_path_info(s, env, facts, k_next, jumps)
         shape = (len(s.body) == 1 and not s.orelse and not s.finalbody and len(s.handlers) == 1
                  and isinstance(s.body[0], ast.Assign) and len(s.body[0].targets) == 1
                  and isinstance(s.body[0].targets[0], ast.Name) and isinstance(s.handlers[0].type, ast.Name))
@@ -596,12 +808,13 @@ class FnTranslator:
         if s.orelse:
             raise Problem('for .. else')
         itobj, itty = self.expr(s.iter, env)
-        if itty not in (SEGS, SEGSOWN):
+        if itty not in (SEGS, SEGSOWN, NODES):
             raise Problem('loop over a %s: %s' % (itty, u(s.iter)))
         if not isinstance(s.target, ast.Name):
             raise Problem('loop target outside the subset: %s' % u(s.target))
         self.nloops += 1
         lp = Loop(self.nloops, self.spec['ret'])
+        lp.elem = NODE if itty == NODES else TEXT
         tname = s.target.id
         lp.x = 'x_%s_%d' % (_ident(tname), lp.n)
         occurs, assigned = [], []
@@ -649,7 +862,7 @@ class FnTranslator:
             return k_rest(after(env2), {})
 
         env_body = dict(env_head)
-        env_body[tname] = (V(lp.x), TEXT)
+        env_body[tname] = (V(lp.x), lp.elem)
         # facts about carried variables do not survive into / across iterations
         cons = self.block(list(s.body), env_body, {}, k_continue, (k_continue, k_break))
         nil = k_rest(dict(env_head), {})
@@ -754,6 +967,24 @@ class FnTranslator:
                 self.used.add('self.VIEW_SELECTOR')
                 return K('view_selector'), TEXT
             raise Problem('attribute of self outside the table: %s' % u(n))
+        if isinstance(n, ast.Attribute) and isinstance(n.value, ast.Name) and n.value.id in env \
+                and env[n.value.id][1] == REQ:
+            q = env[n.value.id][0]
+            if n.attr == 'environ':
+                return q, ENVIRON
+            if n.attr == 'matchdict':
+                return A('q_matchdict', [q]), OPTMD
+            if n.attr == 'path_info':
+                if '$path_info' in env:
+                    return env['$path_info']
+                raise Problem('request.path_info outside the try shape of the table (it may raise KeyError / '
+                              'UnicodeDecodeError): %s' % u(n))
+            raise Problem('attribute of the request outside the table: %s' % u(n))
+        if isinstance(n, ast.Subscript) and isinstance(n.value, ast.Name) and n.value.id in env \
+                and env[n.value.id][1] == ENVIRON:
+            if self.is_vh_key(n.slice, env) and '$vh_raw' in env:
+                return env['$vh_raw']
+            raise Problem('environ[..] outside the table (only environ[self.VH_ROOT_KEY] under a membership test): %s' % u(n))
         if isinstance(n, ast.Dict):
             return self.dict_lit(n, env), TDICT
         if isinstance(n, ast.Call):
@@ -777,6 +1008,13 @@ class FnTranslator:
         return A('mkT', args)
 
     def compare(self, op, l, r, env, whole):
+        if isinstance(op, (ast.Is, ast.IsNot)) and isinstance(r, ast.Constant) and r.value is None \
+                and isinstance(l, ast.Attribute) and l.attr == '__parent__':
+            xo, xt = self.expr(l.value, env)
+            if xt != NODE or xo is None:
+                raise Problem('__parent__ of a %s: %s' % (xt, u(whole)))
+            b = b_atom(A('parent_is_none', [xo]))
+            return b_not(b) if isinstance(op, ast.IsNot) else b
         lobj, lty = self.expr(l, env)
         robj, rty = self.expr(r, env)
         if lobj is None or robj is None:
@@ -801,12 +1039,26 @@ class FnTranslator:
             xo, xt = self.expr(n.func.value, env)
             if xo is None:
                 raise Problem('method call on an unmodelled value: %s' % u(n))
+            if meth == 'get' and xt == MD and len(n.args) == 2 and isinstance(n.args[0], ast.Constant) \
+                    and n.args[0].value in MD_KEYS:
+                do, dt = self.expr(n.args[1], env)
+                if do is None:
+                    raise Problem('default of .get is unmodelled: %s' % u(n))
+                return A('md_get', [K(MD_KEYS[n.args[0].value]), xo, self.as_mval(do, dt)]), MVAL
+            if meth == 'join' and xt == TEXT and isinstance(n.func.value, ast.Constant) and len(n.args) == 1:
+                ao, at = self.expr(n.args[0], env)
+                if at != SEGS or ao is None:
+                    raise Problem('str.join of a %s: %s' % (at, u(n)))
+                return A('join', [xo, ao]), TEXT
             if meth in ('strip', 'split') and xt == TEXT and len(n.args) == 1:
                 c = char_lit(n.args[0], 'str.%s' % meth)
                 return (A('strip_char', [c, xo]), TEXT) if meth == 'strip' else (A('split_on', [c, xo]), SEGS)
             if meth == 'encode' and xt == TEXT and len(n.args) == 1 and isinstance(n.args[0], ast.Constant) \
                     and n.args[0].value == 'latin-1':
                 return A('latin1_encode_r', [xo]), RES(BYTES)
+            if meth == 'encode' and xt == TEXT and len(n.args) == 1 and isinstance(n.args[0], ast.Constant) \
+                    and n.args[0].value == 'ascii':
+                return A('ascii_encode_r', [xo]), RES(BYTES)
             if meth == 'decode' and len(n.args) == 1 and isinstance(n.args[0], ast.Constant) \
                     and n.args[0].value == 'utf-8':
                 if xt == RES(BYTES):
@@ -829,6 +1081,31 @@ class FnTranslator:
                 raise Problem('len(..) of a %s: %s' % (ty, u(n)))
             self.used.add(f)
             return A('Z.of_nat', [A('length', [obj])]), INT
+        if f == 'isinstance' and len(n.args) == 2 and isinstance(n.args[1], ast.Name) and n.args[1].id == 'str' \
+                and 'str' not in env:
+            obj, ty = self.expr(n.args[0], env)
+            if ty not in (TEXT, BYTES, SEGS, SEGSOWN):
+                raise Problem('isinstance(.., str) of a %s: %s' % (ty, u(n)))
+            self.used.update(('isinstance', 'str'))
+            return ('const', ty == TEXT), BOOL
+        if f == 'unquote_bytes_to_wsgi' and len(n.args) == 1:
+            obj, ty = self.expr(n.args[0], env)
+            if ty != BYTES or obj is None:
+                raise Problem('unquote_bytes_to_wsgi(..) of a %s: %s' % (ty, u(n)))
+            self.used.add(f)
+            return A('unquote_to_wsgi', [obj]), TEXT
+        if f == 'traversal_path_info' and len(n.args) == 1:
+            obj, ty = self.expr(n.args[0], env)
+            if ty != TEXT or obj is None:
+                raise Problem('traversal_path_info(..) of a %s: %s' % (ty, u(n)))
+            self.used.add(f)
+            return A('gen_traversal_path_info', [obj]), RES(SEGS)
+        if f == 'lineage' and len(n.args) == 1:
+            obj, ty = self.expr(n.args[0], env)
+            if ty != NODE or obj is None:
+                raise Problem('lineage(..) of a %s: %s' % (ty, u(n)))
+            self.used.add(f)
+            return A('lineage_of', [V('tree'), obj]), NODES
         if f in MODULE_FUNCS and len(n.args) == 1:
             obj, ty = self.expr(n.args[0], env)
             if ty != TEXT or obj is None:
@@ -886,8 +1163,11 @@ def check_globals(tree, used, problems):
     binds = module_bindings(tree)
     want = {'split_path_info': ['def'], 'decode_path_info': ['def'], 'traversal_path_info': ['def'],
             'lru_cache': ['from functools import lru_cache'],
-            'URLDecodeError': ['from pyramid.exceptions import URLDecodeError']}
-    for nm in sorted(set(used) | {'split_path_info', 'decode_path_info', 'traversal_path_info'}):
+            'URLDecodeError': ['from pyramid.exceptions import URLDecodeError'],
+            'is_nonstr_iter': ['from pyramid.util import is_nonstr_iter'],
+            'lineage': ['from pyramid.location import lineage'], 'find_root': ['def'],
+            'unquote_bytes_to_wsgi': ['def'], 'traversal_path': ['def']}
+    for nm in sorted(set(used) | {'split_path_info', 'decode_path_info', 'traversal_path_info', 'find_root', 'traversal_path'}):
         if nm.startswith('self.'):
             continue
         got = binds.get(nm, [])
@@ -981,6 +1261,13 @@ def translate_source(text):
         else:
             summary[gen] = 'translated from source (%d lines of Gallina)' % (body.count('\n') + 1)
         out.append('Definition %s %s :=\n  %s.\n' % (gen, spec['sig'], body))
+    # sequential composition of __call__ at the statement SPLIT_AT: the tail's free variables are exactly the
+    # variables the preamble hands over (PRE_OUT; checked on both sides by the two translations)
+    out.append('Definition gen_call (root : rnode) (q : request) : result tdict :=\n'
+               '  match gen_call_preamble q with\n'
+               '  | Ok (%s) => Ok (gen_call_tail %s root)\n'
+               '  | Exc e_ => Exc e_\n  | Unsupported => Unsupported\n  end.\n'
+               % (', '.join(nm for nm, _ in PRE_OUT), ' '.join(nm for nm, _ in PRE_OUT)))
     if tree is not None:
         check_globals(tree, used, problems)
     return '\n'.join(out), problems, summary
